@@ -39,6 +39,11 @@ def make_scat_obj(S):
     return _Obj()
 
 
+def fixtures_block():
+    import arim
+    return arim.Material(6320.0, 3130.0, density=2700.0, state_of_matter="solid")
+
+
 def run(ctx):
     import arim.scat as scat
     from arim import _scat
@@ -50,6 +55,14 @@ def run(ctx):
                 "rotations by every whole number of grid steps in [-2n, 2n], 1-4 sampled frequencies (inside, on, outside the range), any subset of keys in data files; "
                 "distinct = distinct query; non-trivial = query not on a node")
     PI = F(float(np.pi))
+    # the angle vectors and grids belong to the caller (who may shift them in place to evaluate a rotated scatterer): the next
+    # grid of the same size, and the matrices built on it, are unaffected
+    import fixtures
+    for n_ in (3, 8, int(rng.integers(9, 40))):
+        fixtures.check_fresh(ctx, "make_angles", lambda n_=n_: scat.make_angles(n_), {"op": "make_angles", "n": n_})
+        fixtures.check_fresh(ctx, "make_angles_grid", lambda n_=n_: scat.make_angles_grid(n_), {"op": "make_angles_grid", "n": n_})
+        crack_ = scat.scat_factory("crack_centre", fixtures_block(), 1e-3, nodes_per_wavelength=6)
+        fixtures.check_fresh(ctx, "as_single_freq_matrices", lambda n_=n_: crack_.as_single_freq_matrices(2e6, min(n_, 8)), {"op": "as_single_freq_matrices", "n": min(n_, 8)})
     lines, meta = [], []
     for k in range(40 * ctx.scale):
         n = int(rng.integers(2, 34))
